@@ -13,6 +13,5 @@ for p in "$@"; do
 done
 git -C /repo worktree remove --force "$wt"
 # Generated tables and the float-table dump were regenerated from the worktree: restore them from /repo
-/verif/.cache/target_check/debug/corr dump-tables --out /verif/.cache/tables.json >/dev/null 2>&1
-python3 /verif/translator/extract.py >/dev/null
+flock /verif/.cache/check.lock sh -c '/verif/.cache/target_check/debug/corr dump-tables --out /verif/.cache/tables.json >/dev/null 2>&1; python3 /verif/translator/extract.py >/dev/null'
 exit $rc
